@@ -787,6 +787,9 @@ def builtin (fn : String) (args : List Val) : Option (M Val) :=
   | "float", [v] => some (match asNum v with | some x => M.pure (.num x) | Option.none => M.fail (.raise "TypeError"))
   | "int", [.int i] => some (M.pure (.int i))
   | "int", [.bool b] => some (M.pure (.int (ITerm.mkOfBool b)))
+  | "int", [.num x] => some (do
+      -- `int(float)` truncates toward zero
+      if (← M.branch (.nlt x (.ofInt (.lit 0)))) then M.pure (.int (.ceil x)) else M.pure (.int (.floor x)))
   | "bool", [v] => some (M.pure (.bool (truthyT v)))
   | "list", [.list l] => some (M.pure (.list l))
   | "list", [.dict ks _] => some (M.pure (.list ks))
